@@ -514,21 +514,32 @@ fn lattice_states(base: &ObservableInstanceState, tier: Tier) -> Vec<(String, Ob
             }
         }
     }
-    // every port state and delay mechanism, mean link delays through the JSON of PortDS
-    let pj = serde_json::to_value(&base.port_ds[0]).unwrap();
-    for st in ["Initializing", "Faulty", "Disabled", "Listening", "PreMaster", "Master", "Passive", "Uncalibrated", "Slave"] {
-        for mld in [0i64, 1, -1, 65536, 1 << 40, -(1 << 40), i64::MAX, i64::MIN] {
-            let mut a = pj.clone();
-            a["port_state"] = json!(st);
-            a["delay_mechanism"] = json!({"P2P": {"log_min_p_delay_req_interval": 1, "mean_link_delay": mld}});
-            let mut b = pj.clone();
-            b["port_identity"]["port_number"] = json!(7);
-            b["delay_mechanism"] = json!({"E2E": {"log_min_delay_req_interval": -3}});
-            let (Ok(pa), Ok(pb)) = (serde_json::from_value::<PortDS>(a), serde_json::from_value::<PortDS>(b)) else { continue };
+    // every port state and delay mechanism x mean link delay x delay asymmetry (both signs), the
+    // port records built in Rust (not through the deserialiser under test); a TimeInterval value
+    // is what a real port configured with that delay asymmetry exposes
+    use statime::observability::port::{DelayMechanism as DM, PortState as OPS};
+    let ti = |bits: i64| {
+        let mut n = NodeSpec::default();
+        n.ports[0].asymmetry_ns_frac = (bits as i128) << 16;
+        let v = with_node::<RecFilter, _>(&n, |_| RecCfg(Default::default(), false), |node| node.port_ref(0).port_ds().delay_asymmetry);
+        assert_eq!(v.0.to_bits(), bits, "harness: a configured delay asymmetry of {bits} x 2^-16 ns is exposed unchanged (C16)");
+        v
+    };
+    let pb0 = base.port_ds[0];
+    for st in [OPS::Initializing, OPS::Faulty, OPS::Disabled, OPS::Listening, OPS::PreMaster, OPS::Master, OPS::Passive, OPS::Uncalibrated, OPS::Slave] {
+        for mld in [0i64, 1, -1, 65536, -(250 << 16), 1 << 40, -(1 << 40), i64::MAX, i64::MIN] {
+            let mut pa = pb0;
+            pa.port_state = st;
+            pa.delay_mechanism = DM::P2P { log_min_p_delay_req_interval: 1, mean_link_delay: ti(mld) };
+            pa.delay_asymmetry = ti(mld.wrapping_neg().wrapping_add(3));
+            let mut pb = pb0;
+            pb.port_identity.port_number = 7;
+            pb.delay_mechanism = DM::E2E { log_min_delay_req_interval: -3 };
+            pb.delay_asymmetry = ti(mld);
             let mut s = base.clone();
             // an E2E port before a P2P port, and after it
-            s.port_ds = vec![pb, pa, { let mut c = pb; c.port_identity.port_number = 9; c }, { let mut c = pa; c.port_identity.port_number = 11; c }];
-            out.push((format!("ports state {st} mean link delay {mld}"), s));
+            s.port_ds = vec![pb, pa, { let mut c = pb; c.port_identity.port_number = 9; c }, { let mut c = pa; c.port_identity.port_number = 11; c.delay_mechanism = DM::CommonP2P { mean_link_delay: ti(mld) }; c }];
+            out.push((format!("ports state {st:?} mean link delay {mld}"), s));
         }
     }
     // booleans of the other data sets
